@@ -51,6 +51,25 @@ func dhcpNets() []dhcpNet {
 	}
 }
 
+// gateway is the router the captured subnet announces: the address part of Config.NetfilterIP.
+func (n dhcpNet) gateway() netip.Addr { return n.netfilter.Addr() }
+
+// otherGateway is the same network with a netfilter gateway that is not the host's LAN address (a second address of the host:
+// NetfilterIP host+1 on the same prefix), the configuration Config.NetfilterIP exists for. One history in seven runs there.
+func (n dhcpNet) otherGateway() dhcpNet {
+	n.netfilter = netip.PrefixFrom(n.nic.HostIP.Next(), n.netfilter.Bits())
+	n.name += "+gw"
+	return n
+}
+
+func dhcpNetFor(nets []dhcpNet, idx int64) dhcpNet {
+	n := nets[int(idx)%len(nets)]
+	if idx%7 == 3 {
+		n = n.otherGateway()
+	}
+	return n
+}
+
 var dhcpClients = []refdec.MAC{{0x02, 0xc1, 0, 0, 0, 1}, {0x02, 0xc2, 0, 0, 0, 2}, {0x02, 0xc3, 0, 0, 0, 3}}
 var bystander = refdec.MAC{0x02, 0xdd, 0, 0, 0, 9}
 
@@ -152,6 +171,9 @@ func (d *dhcpRun) pickAddr(p int, me *dclient, cls []*dclient, captured bool) ne
 	case 3:
 		return other.acked
 	case 4:
+		if captured && d.idx%2 == 1 {
+			return d.net.gateway() // the captured subnet's router (the host address itself in most configurations)
+		}
 		return d.net.nic.HostIP
 	case 5:
 		return d.net.nic.RouterIP
@@ -212,7 +234,7 @@ func (d *dhcpRun) history() {
 	if !dns.IsValid() {
 		dns = nic.RouterIP
 	}
-	m := mon.NewDHCPMon(mon.DHCPCfg{Home: nic.HomeLAN, Netfilter: d.net.netfilter.Masked(), HostIP: nic.HostIP, RouterIP: nic.RouterIP, DNS: dns,
+	m := mon.NewDHCPMon(mon.DHCPCfg{Home: nic.HomeLAN, Netfilter: d.net.netfilter.Masked(), HostIP: nic.HostIP, Gateway: d.net.gateway(), RouterIP: nic.RouterIP, DNS: dns,
 		FamilyDNS: netip.MustParseAddr("1.1.1.3"), Lease: 4 * time.Hour}, time.Now)
 	cls := []*dclient{{mac: dhcpClients[0]}, {mac: dhcpClients[1], useID: true}, {mac: dhcpClients[2], useID: d.idx%2 == 0}}
 	if d.idx%5 == 2 {
@@ -493,7 +515,7 @@ func (d *dhcpRun) history() {
 			if lan.Bits() >= 28 {
 				var free []netip.Addr
 				for a := lan.Addr().Next(); lan.Contains(a.Next()); a = a.Next() {
-					taken := a == nic.HostIP || a == nic.RouterIP || s.FindIP(a) != nil
+					taken := a == nic.HostIP || a == d.net.gateway() || a == nic.RouterIP || s.FindIP(a) != nil
 					for _, x := range cls {
 						taken = taken || a == x.acked || a == x.offered
 					}
@@ -661,6 +683,9 @@ func (d *dhcpRun) history() {
 	if d.restart && !d.viol {
 		d.restartProbe(s, rec, file, m, h, cls, cs)
 	}
+	if d.net.gateway() != nic.HostIP {
+		c.Obs("histories_with_a_netfilter_gateway_other_than_the_host_address", 1)
+	}
 	c.Obs("dhcp_acks", int64(m.Acks))
 	c.Obs("dhcp_offers", int64(m.Offers))
 	c.Obs("dhcp_naks", int64(m.Naks))
@@ -761,7 +786,7 @@ func runDHCP(c *wk.Ctx) {
 	run := func(idx int64, ops []dop, kind string, r *rand.Rand) {
 		c.Begin(base+idx, "dhcp-history", nil)
 		c.Eval()
-		d := &dhcpRun{c: c, idx: idx, base: base, ops: ops, net: nets[int(idx)%len(nets)], mode: modes[int(idx/3)%len(modes)], real: real}
+		d := &dhcpRun{c: c, idx: idx, base: base, ops: ops, net: dhcpNetFor(nets, idx), mode: modes[int(idx/3)%len(modes)], real: real}
 		if idx%2 == 0 {
 			d.dns = netip.MustParseAddr("9.9.9.9")
 		}
